@@ -315,3 +315,8 @@ pub fn dot_product_mod(operand1: &[u64], operand2: &[u64], modulus: &Modulus) ->
     }
     barrett_reduce_u128(&accumulator, modulus)
 }
+
+// Verification hook (add-only): compiled only under `cargo kani` or `--cfg heathcliff_verif`.
+#[cfg(any(kani, heathcliff_verif))]
+#[path = "/verif/incrate/util_uintsmallmod_v.rs"]
+pub(crate) mod verif_v;
